@@ -38,8 +38,10 @@ def job_size(job):
 # ------------------------------------------------------------------------------------------------
 def prework_of(seed, stream, hs, shard):
     r = core.rng(seed, "C12", stream + ":prework", hs * 1000 + shard)
-    return dict(alloc=r.choice([0, 3, 40, 400, 3000]), strs=r.choice([0, 5, 60, 500]), elab=r.choice([0, 1, 3, 8]),
-                salt=r.randrange(10 ** 6))
+    pw = dict(alloc=r.choice([0, 3, 40, 400, 3000]), strs=r.choice([0, 5, 60, 500]), elab=r.choice([0, 1, 3, 8]),
+              salt=r.randrange(10 ** 6))
+    pw["mods"] = r.choice([0, 1, 2, 5, 11, 40, 200])      # module objects (drawn last: the earlier draws are those of round 1)
+    return pw
 
 
 def plan_sessions(njobs, hashseeds, seed, stream, shard_size):
@@ -325,7 +327,7 @@ def evaluate(run, stream, jobs, hashseeds, seed, shard_size, nontrivial=lambda j
                 if all(s is not None for s in seen):
                     tie_cases.append(("ocase", c_ocase(oc, seen)))
                     tie_ref.append((j, oc["inst"]))
-        elif job["kind"] == "cyc":
+        elif job["kind"] == "cyc" and not job.get("long"):      # long-name designs: tied by c12z.chk_long (explicit signals, refusals)
             seen = [top_sigs(r, "G") for r in rs]
             if all(s is not None for s in seen):
                 tie_cases.append(("ncase", c_ncase(cyc_groups(job["cyc"]), seen)))
@@ -379,6 +381,8 @@ def first_difference(o):
 
 
 def explain(ra, rb):
+    if ra.get("steps") != rb.get("steps"):
+        return f"outcomes of the PDK registry operations: {ra.get('steps')} vs {rb.get('steps')}"
     if ra.get("mods") != rb.get("mods"):
         return f"module names/order: {ra.get('mods')} vs {rb.get('mods')}"
     for xa, xb in zip(ra.get("order", []), rb.get("order", [])):
@@ -506,3 +510,7 @@ def run(run, tier, seed, replay=None):
     #      site where the elaborator iterates over a hash-ordered set (harness/vp/c12e.py, notes/C12E.md)
     from . import c12e
     c12e.run_tie(run, tier, seed, hashseeds)
+
+    # ---- strengthening round (harness/vp/c12z.py): generator-parameter kinds, names at the flatname limit, PDK registry programs
+    from . import c12z
+    c12z.run_streams(run, tier, seed, hashseeds)
